@@ -336,6 +336,11 @@ var setObjAttrs = []struct {
 	{"style.shadow", []string{"true", "false"}, false},
 	{"style.multiple", []string{"true", "false"}, false},
 	{"style.border-radius", []string{"0", "9"}, false},
+	{"style.double-border", []string{"true", "false"}, false},
+	{"style.3d", []string{"true", "false"}, false},
+	{"style.underline", []string{"true", "false"}, false},
+	{"style.fill-pattern", []string{"dots", "lines", "grain"}, true},
+	{"style.font", []string{"mono"}, true},
 	{"style.text-transform", []string{"uppercase", "none", "Lowercase"}, true},
 	{"tooltip", []string{"a tip", "tip: with colon"}, false},
 	{"link", []string{"https://d2lang.com", "https://example.com/x?y=1"}, false},
@@ -357,6 +362,10 @@ var setEdgeAttrs = []struct {
 	{"style.animated", []string{"true", "false"}, false},
 	{"style.font-size", []string{"12", "28"}, false},
 	{"style.bold", []string{"true"}, false},
+	{"style.italic", []string{"true", "false"}, false},
+	{"style.underline", []string{"true"}, false},
+	{"style.font-color", []string{"red", "#00ff00"}, false},
+	{"style.border-radius", []string{"3"}, false},
 	{"source-arrowhead.shape", []string{"diamond", "arrow", "Circle"}, true},
 	{"target-arrowhead.shape", []string{"triangle", "cf-one"}, true},
 	{"source-arrowhead.label", []string{"1", "many"}, false},
@@ -381,7 +390,7 @@ func (og *OpGen) Next(boards []CBoard, bi int) Op {
 	objID := func() (string, bool) {
 		if len(g.Objs) == 0 || og.R.Intn(25) == 0 {
 			og.count("op:nonexistent-target")
-			return og.name() + "." + og.name(), false
+			return qname(og.name()) + "." + qname(og.name()), false
 		}
 		return g.Objs[og.R.Intn(len(g.Objs))].ID, true
 	}
@@ -403,7 +412,7 @@ func (og *OpGen) Next(boards []CBoard, bi int) Op {
 		case x < 9:
 			return g.Objs[og.R.Intn(len(g.Objs))].ID + "."
 		default:
-			return og.name() + "." + og.name() + "."
+			return qname(og.name()) + "." + qname(og.name()) + "."
 		}
 	}
 	op.Kind = og.pickKind()
@@ -413,7 +422,7 @@ func (og *OpGen) Next(boards []CBoard, bi int) Op {
 			s, _ := objID()
 			d, _ := objID()
 			if og.R.Intn(4) == 0 {
-				d = parentPrefix() + og.name()
+				d = parentPrefix() + qname(og.name())
 			}
 			op.Key = s + " " + arrows[og.R.Intn(len(arrows))] + " " + d
 			og.count("create:edge")
@@ -453,7 +462,14 @@ func (og *OpGen) Next(boards []CBoard, bi int) Op {
 			op.Value = sp(og.freshLabel(onEdge))
 			og.count("set:label-keyword")
 		default:
-			if onEdge {
+			if onEdge && og.R.Intn(8) == 0 {
+				// the arrowhead's label through its primary value: `(a -> b)[0].source-arrowhead: 1`
+				side := []string{"source-arrowhead", "target-arrowhead"}[og.R.Intn(2)]
+				op.Attr = side + ".label"
+				op.Key = id + "." + side
+				op.Value = sp([]string{"1", "*", "many"}[og.R.Intn(3)])
+				og.count("set:arrowhead-primary-label")
+			} else if onEdge {
 				a := setEdgeAttrs[og.R.Intn(len(setEdgeAttrs))]
 				op.Attr = a.attr
 				op.Key = id + "." + a.attr
@@ -526,6 +542,9 @@ func (og *OpGen) Next(boards []CBoard, bi int) Op {
 		} else {
 			op.Key, _ = objID()
 			op.NewName = og.name()
+			if strings.ContainsAny(op.NewName, ".:#") {
+				op.NewName = "n" + strings.NewReplacer(".", "", ":", "", "#", "").Replace(op.NewName) // Rename takes a raw name; see C40-rename-to-dotted-name
+			}
 			if og.R.Intn(20) == 0 {
 				// (names that parse as a path or a connection — "a.b", "x -> y" — make Rename produce IDs like
 				// "(x -> y)[0]" that poison the rest of the history; see findings C40-rename-to-dotted-name / -edge-like-name)
@@ -577,6 +596,7 @@ func (og *OpGen) Next(boards []CBoard, bi int) Op {
 
 var reObjLabel = regexp.MustCompile(`^L\d+$`)
 var reEdgeLabel = regexp.MustCompile(`^E\d+$`)
+var reImplicit = regexp.MustCompile(`^m\d+$`)
 
 // Relabel proposes Set operations that give every element of board `bi` lacking a generator label a fresh unique one
 // (objects created by Create / implicit containers carry their name as default label, edges an empty one).
@@ -585,6 +605,12 @@ func (og *OpGen) Relabel(boards []CBoard, bi int) []Op {
 	var ops []Op
 	seen := map[string]bool{}
 	for _, o := range b.G.Objs {
+		// objects of the generator's m<n> pool that were written without a label stay that way: giving them one would
+		// add a declaration key and destroy the source form under test (implicit endpoints, flat-key-only objects)
+		if len(o.Path) > 0 && reImplicit.MatchString(o.Path[len(o.Path)-1]) && o.Label == o.Path[len(o.Path)-1] && !seen[o.Label] {
+			seen[o.Label] = true
+			continue
+		}
 		if !reObjLabel.MatchString(o.Label) || seen[o.Label] {
 			ops = append(ops, Op{Kind: "set", Board: b.Path, Key: o.ID, Target: o.ID, Attr: "label", Value: sp(og.freshLabel(false))})
 		}
